@@ -103,7 +103,13 @@ func c06Giant(c *sim.Ctx, n int, first byte) *sim.Violation {
 	hdr := ref.AppendVarint([]byte{first}, uint32(n))
 	stream := make([]byte, len(hdr)+n+2)
 	copy(stream, hdr)
-	copy(stream[len(hdr):], []byte{0, 1, 0, 0}) // packet identifier 1, reason 0, no properties, then zeros
+	copy(stream[len(hdr):], []byte{0, 1, 0, 0}) // packet identifier 1, reason 0, no properties
+	// the rest is 0xFF: read as a list it is a few thousand 64 KiB elements, not
+	// tens of millions of empty ones (legal, linear, but minutes on a busy machine)
+	fill := stream[len(hdr)+4 : len(hdr)+n]
+	for i := range fill {
+		fill[i] = 0xFF
+	}
 	stream[len(hdr)+n-1] = 0x7E
 	stream[len(hdr)+n], stream[len(hdr)+n+1] = 0xC0, 0x00
 	r := link.NewReader(c, stream, link.Mode{})
@@ -129,14 +135,14 @@ func runC06(c *sim.Ctx) *sim.Violation {
 	if c.Run < 9 || (c.Thorough && c.Run < 40) {
 		return c06Mega(c)
 	}
-	if c.Run == 40 || c.Run == 41 || (c.Thorough && c.Run > 41 && c.Run < 72) {
+	if c.Run == 40 || c.Run == 41 || (c.Thorough && c.Run > 41 && c.Run < 64000 && c.Run%2000 == 40) {
 		types := []byte{0x40, 0xE0, 0x20, 0x50, 0x62, 0x70, 0x90, 0xB0, 0xF0, 0x00, 0x82, 0xA2, 0x10, 0xC0, 0xD0, 0x30}
 		sizes := []int{1<<27 + 5, 1<<28 - 1, 1<<27 + 1, 1 << 27, 1<<27 + 4097, 200<<20 + 3, 1<<28 - 4096}
-		k := int(c.Run - 40)
+		k, ty := int(c.Run-40), int(c.Run-40)
 		if k >= 2 {
-			k = int(c.Run + c.Seed)
+			k, ty = int(c.Run/2000+c.Seed), int(c.Run/2000)+1
 		}
-		return c06Giant(c, sizes[k%len(sizes)], types[int(c.Run-40)%len(types)])
+		return c06Giant(c, sizes[k%len(sizes)], types[ty%len(types)])
 	}
 	n := 1 + t.Pick(3, 3, 2, 2)
 	if n == 4 {
